@@ -570,6 +570,18 @@ pub fn generate(rng: &mut Rng, fault_free: bool) -> K16 {
         };
         sessions.push(S16 { outcome: KOutcome::Accept, lines: lines.iter().map(|l| wire::hex(l)).collect(), splits, close, eintr_reads });
     }
+    if retry && rng.chance(0.06) {
+        // a flapping forwarder: the port accepts and hangs up at once, again and again (ssh / socat
+        // / nginx in front of a receiver that is down), before the feed comes back
+        let n = *rng.pick(&[5usize, 31, 63, 64, 65, 70, 130]);
+        let at = sessions.iter().position(|s| s.outcome == KOutcome::Accept).map(|i| i + 1).unwrap_or(0);
+        for _ in 0..n {
+            let rst = rng.chance(0.2);
+            sessions.insert(at, S16 { outcome: KOutcome::Accept, lines: vec![], splits: vec![], close: Some(Close16 { cut: None, after_us: 1_000 + rng.below(4_000), rst }), eintr_reads: vec![] });
+        }
+        faults.push("flapping_connection".into());
+    }
+    let nsess_accept = sessions.iter().filter(|s| s.outcome == KOutcome::Accept).count();
     let airports_spoiled = if retry && nsess_accept >= 2 && rng.chance(0.3) {
         faults.push("airports_file_spoiled_while_disconnected".into());
         Some((*rng.pick(&["delete", "garble", "truncate"])).to_string())
@@ -953,7 +965,8 @@ pub fn execute(sc: &K16) -> Outcome {
 
 fn leak_fault_name(f: &str) -> &'static str {
     // fault names are a closed set; map to 'static for the counters
-    const NAMES: [&str; 36] = [
+    const NAMES: [&str; 37] = [
+        "flapping_connection",
         "volume_over_4_gib",
         "volume_over_65535_lines",
         "outage_of_tens_of_thousands_of_attempts",
